@@ -8,7 +8,8 @@ from gv.model import grammar as G
 ID = "C08"
 RULE = ("part 'enc': every dialect dictionary (72) x every value string of length 1..L over an 18-symbol alphabet x 4 placements, "
         "printed and re-parsed with that dialect; part 'total': every string of length <= N over the 9-symbol structural alphabet as "
-        "the attribute column, parsed with inference and three supplied dialects. Non-trivial = value contains a reserved/structural "
+        "the attribute column, parsed with inference and three supplied dialects; plus 15 long (25-66 character) strings of word runs and "
+        "repeated structural characters, each parsed under a 20 s termination guard. Non-trivial = value contains a reserved/structural "
         "character (enc) or the string has >= 2 structural characters (total)")
 ASSUMPTIONS = [
     "exhaustive for the stated alphabets and lengths only: 'arbitrary Unicode' and 'randomly beyond' are not sampled (small-scope assumption)",
@@ -63,6 +64,7 @@ def shards(tier):
             out.append(("total", n, None))
         else:
             out.extend(("total", n, (a, b)) for a in range(len(STRUCT)) for b in range(len(STRUCT)))
+    out.append(("long",))
     return out
 
 
@@ -109,6 +111,18 @@ def body_enc(ch, ctx):
     ctx.check(same_cols, "columns-changed", sig, mapping=mapping, text=text)
     ok = list(got.items()) == [(k, list(x)) for k, x in mapping.items()]
     ctx.outcome((D["fmt"], D["keyval separator"], ok))
+    if place == 0 and ok:
+        # the caller edits its own dialect dictionary between two uses (a different, equally valid dialect)
+        D2 = dict(D)
+        feature_from_line(str(Feature(attributes={"ID": [v], "k.1-a": ["w"]}, dialect=D2, **COLS)), dialect=D2)
+        D2["field separator"] = {";": "; ", "; ": " ; ", " ; ": ";"}[D2["field separator"]]
+        D2["trailing semicolon"] = not D2["trailing semicolon"]
+        m2 = {"ID": [v], "k.1-a": ["w"]}
+        g2 = feature_from_line(str(Feature(attributes={k: list(x) for k, x in m2.items()}, dialect=D2, **COLS)), dialect=D2)
+        ok2 = list(G.as_plain(g2.attributes).items()) == [(k, list(x)) for k, x in m2.items()]
+        if not (gtf and not D["quoted GFF2 values"] and edge_ws):
+            ctx.check(ok2, "mapping-changed-after-dialect-dictionary-was-edited", sig, mapping=m2, got=list(G.as_plain(g2.attributes).items()),
+                      dialect={k: D2[k] for k in D2 if k != "order"})
     ctx.check(ok, "mapping-changed",
               dict(sig, edge_whitespace=edge_ws, unquoted_gtf=gtf and not D["quoted GFF2 values"]),
               mapping=mapping, text=text, got=list(got.items()), sep=D["field separator"],
@@ -139,8 +153,47 @@ def body_total(ch, ctx):
     ctx.outcome(tuple(shapes))
 
 
+LONG = ["a" * 30, "Sequence_similarity_group_000000000000000000001234", "x" * 40 + " y", "k=" + "v" * 60, "a" * 25 + ";" + "b" * 25,
+        '"' * 30, "=" * 30, ";" * 30, "%" * 30, " " * 30, "a b " * 12, "a=b;" * 12 + "c" * 30, "key " + "w" * 64, "a.b-c" * 8, "AbC_9" * 7 + "!"]
+
+
+class _Timeout(Exception):
+    pass
+
+
+def body_long(ch, ctx):
+    import signal
+    s = ch.choose("string", LONG)
+    which = ch.index("dialect", 1 + len(SUPPLIED))
+    D = ([None] + SUPPLIED)[which]
+    ctx.sample(lambda: dict(attribute_column=s, supplied=which))
+    ctx.nontrivial()
+    ctx.outcome(("long", which))
+    line = "c\ts\tt\t1\t2\t.\t+\t.\t" + s
+
+    def onalarm(sig, frm):
+        raise _Timeout()
+
+    old = signal.signal(signal.SIGALRM, onalarm)
+    signal.alarm(20)
+    try:
+        f = feature_from_line(line, dialect=D)
+        attrs = G.as_plain(f.attributes)
+        good = all(isinstance(k, str) and isinstance(v, list) and all(isinstance(x, str) for x in v) for k, v in attrs.items())
+        ctx.check(good, "values-not-lists-of-strings", dict(supplied=which), string=s)
+    except _Timeout:
+        ctx.fail("parse-did-not-terminate", dict(supplied=which), string=s, seconds=20)
+    except Exception as e:
+        ctx.fail("parse-raised", dict(supplied=which, exc=type(e).__name__), string=s, message=str(e)[:300])
+    finally:
+        signal.alarm(0)
+        signal.signal(signal.SIGALRM, old)
+
+
 def body(ch, ctx):
     if ctx.shard[0] == "enc":
         body_enc(ch, ctx)
+    elif ctx.shard[0] == "long":
+        body_long(ch, ctx)
     else:
         body_total(ch, ctx)
